@@ -367,3 +367,682 @@ Section Struct.
         -- lia.
   Qed.
 End Struct.
+
+(* ================= 5. zrnt's loops in structural form ================= *)
+Definition idx_where {A} (p : A -> bool) (k : N) (l : list A) : list N :=
+  map fst (filter (fun ia => p (snd ia)) (indexed_from k l)).
+Lemma idx_where_cons {A} (p : A -> bool) k x l :
+  idx_where p k (x :: l) = if p x then k :: idx_where p (k + 1) l else idx_where p (k + 1) l.
+Proof. unfold idx_where. cbn [indexed_from filter snd]. destruct (p x); reflexivity. Qed.
+Lemma idx_where_nil {A} (p : A -> bool) k : idx_where p k [] = [].
+Proof. reflexivity. Qed.
+Lemma idx_where_bounds {A} (p : A -> bool) : forall (l : list A) k i,
+  In i (idx_where p k l) -> k <= i < k + N.of_nat (length l) /\ exists x, nth_error l (N.to_nat (i - k)) = Some x /\ p x = true.
+Proof.
+  intros l k i Hin. unfold idx_where in Hin. apply in_map_iff in Hin. destruct Hin as [[j x] [Hfst Hin]].
+  cbn [fst] in Hfst. subst j. apply filter_In in Hin. destruct Hin as [Hin Hp]. cbn [snd] in Hp.
+  apply indexed_from_fst_bounds in Hin. destruct Hin as [Hb Hn]. split; [exact Hb|]. exists x. split; assumption.
+Qed.
+
+Section ImplStruct.
+  Variable E : Env.
+  Notation c := (cfg E).
+
+  Definition maybe_cond (ce : N) (fl : FlatValidator) : bool :=
+    (fl_activation_epoch fl =? FAR_FUTURE_EPOCH) && (fl_activation_eligibility_epoch fl <=? ce).
+
+  (* the first loop of ComputeRegistryProcessData *)
+  Lemma scan_gen ce : forall l k acc,
+    sa_active acc + N.of_nat (length l) < two64 ->
+    fold_left (scan_step c ce) (indexed_from k l) acc =
+    mkScan (sa_active acc + countN (fun fl => fl_is_active fl ce) l)
+           (sa_elig acc ++ idx_where (elig_cond E) k l)
+           (sa_maybe acc ++ idx_where (maybe_cond ce) k l)
+           (sa_eject acc ++ idx_where (eject_cond E ce) k l).
+  Proof.
+    induction l as [|fl l IH]; intros k acc Hb.
+    - cbn [fold_left indexed_from]. rewrite !idx_where_nil, !app_nil_r, countN_nil, N.add_0_r. destruct acc; reflexivity.
+    - cbn [indexed_from fold_left]. cbn [length] in Hb. rewrite IH.
+      + unfold scan_step. cbn [sa_active sa_elig sa_maybe sa_eject]. rewrite !idx_where_cons, countN_cons.
+        unfold elig_cond, maybe_cond, eject_cond.
+        destruct (fl_is_active fl ce); [rewrite add64_small by lia|]; cbn [andb];
+        repeat match goal with |- context [if ?b then _ else _] => destruct b end;
+        rewrite <- ?app_assoc; cbn [app]; f_equal; lia.
+      + unfold scan_step. cbn [sa_active]. destruct (fl_is_active fl ce); [rewrite add64_small by lia|]; lia.
+  Qed.
+  Lemma scan_spec ce flats :
+    N.of_nat (length flats) < two64 ->
+    scan c flats ce = mkScan (countN (fun fl => fl_is_active fl ce) flats) (idx_where (elig_cond E) 0 flats)
+                             (idx_where (maybe_cond ce) 0 flats) (idx_where (eject_cond E ce) 0 flats).
+  Proof. intros H. unfold scan, indexed. rewrite scan_gen by (cbn [sa_active]; lia). reflexivity. Qed.
+
+  (* "process ejections" *)
+  Lemma eject_fold_struct ce limit : forall flats vals pre e ch,
+    length flats = length vals ->
+    e + N.of_nat (length flats) + MIN_VALIDATOR_WITHDRAWABILITY_DELAY c < two64 ->
+    ch + N.of_nat (length flats) < two64 ->
+    exists e' ch',
+      fold_left (eject_step c limit) (idx_where (eject_cond E ce) (N.of_nat (length pre)) flats) (Some (pre ++ vals, e, ch)) =
+      Some (pre ++ eject_struct E ce limit flats vals e ch, e', ch').
+  Proof.
+    induction flats as [|fl flats IH]; intros vals pre e ch Hlen He Hch.
+    - exists e, ch. destruct vals; reflexivity.
+    - destruct vals as [|v vals]; [discriminate|]. cbn [length] in *.
+      rewrite idx_where_cons. cbn [eject_struct].
+      replace (N.of_nat (length pre) + 1) with (N.of_nat (length (pre ++ [v]))) by (rewrite app_length; cbn [length]; lia).
+      destruct (eject_cond E ce fl).
+      + cbn [fold_left]. unfold eject_step at 2. rewrite nthN_app.
+        rewrite (add64_small e (MIN_VALIDATOR_WITHDRAWABILITY_DELAY c)) by lia.
+        destruct (N.ltb_spec (e + MIN_VALIDATOR_WITHDRAWABILITY_DELAY c) e) as [Hlt|_]; [lia|].
+        rewrite updN_app. rewrite (add64_small ch 1) by lia.
+        unfold next_queue.
+        replace (length (pre ++ [v])) with (length (pre ++ [set_exit E e v])) by (rewrite !app_length; reflexivity).
+        destruct (limit <=? ch + 1); cbn [fst snd].
+        * rewrite (add64_small e 1) by lia.
+          destruct (IH vals (pre ++ [set_exit E e v]) (e + 1) 0) as [e' [ch' H]]; try lia.
+          exists e', ch'. rewrite <- !app_assoc in H. cbn [app] in H. exact H.
+        * destruct (IH vals (pre ++ [set_exit E e v]) e (ch + 1)) as [e' [ch' H]]; try lia.
+          exists e', ch'. rewrite <- !app_assoc in H. cbn [app] in H. exact H.
+      + destruct (IH vals (pre ++ [v]) e ch) as [e' [ch' H]]; try lia.
+        exists e', ch'. rewrite <- !app_assoc in H. cbn [app] in H. exact H.
+  Qed.
+
+  (* "Process activation eligibility" *)
+  Lemma elig_fold_struct ce ee : forall flats vals pre,
+    length flats = length vals -> ee = ce + 1 ->
+    fold_left (elig_step ee) (idx_where (elig_cond E) (N.of_nat (length pre)) flats) (Some (pre ++ vals)) =
+    Some (pre ++ elig_struct E ce flats vals).
+  Proof.
+    induction flats as [|fl flats IH]; intros vals pre Hlen Hce.
+    - destruct vals; reflexivity.
+    - destruct vals as [|v vals]; [discriminate|]. cbn [length] in *.
+      rewrite idx_where_cons. cbn [elig_struct].
+      replace (N.of_nat (length pre) + 1) with (N.of_nat (length (pre ++ [v]))) by (rewrite app_length; cbn [length]; lia).
+      destruct (elig_cond E fl).
+      + cbn [fold_left]. unfold elig_step at 2. rewrite nthN_app, updN_app.
+        replace (length (pre ++ [v])) with (length (pre ++ [set_elig (ce + 1) v])) by (rewrite !app_length; reflexivity).
+        replace (pre ++ (v <| v_activation_eligibility_epoch := ee |>) :: vals)
+          with ((pre ++ [set_elig (ce + 1) v]) ++ vals) by (rewrite <- app_assoc, Hce; reflexivity).
+        rewrite IH by (try lia). rewrite <- app_assoc. reflexivity.
+      + replace (pre ++ v :: vals) with ((pre ++ [v]) ++ vals) at 1 by (rewrite <- app_assoc; reflexivity).
+        rewrite IH by (try lia). rewrite <- app_assoc. reflexivity.
+  Qed.
+End ImplStruct.
+
+(* ================= 6. hypotheses on the numbers, and ComputeRegistryProcessData in closed form ================= *)
+(* No epoch computed by either side reaches 2^64-1 (= FAR_FUTURE_EPOCH), no counter wraps, and Go does not divide by zero. *)
+Record RegBounds (c : Config) (ce : N) (vals : list Validator) : Prop := mkRegBounds {
+  rb_quot : CHURN_LIMIT_QUOTIENT c <> 0;
+  rb_count : 2 * N.of_nat (length vals) < two64;
+  rb_epoch : ce + 1 + MAX_SEED_LOOKAHEAD c + N.of_nat (length vals) + 1 + MIN_VALIDATOR_WITHDRAWABILITY_DELAY c < max64;
+  rb_exits : forall v, In v vals ->
+     v_exit_epoch v = FAR_FUTURE_EPOCH \/
+     v_exit_epoch v + N.of_nat (length vals) + 1 + MIN_VALIDATOR_WITHDRAWABILITY_DELAY c < max64 }.
+
+Section RegData.
+  Variable E : Env.
+  Notation c := (cfg E).
+
+  Lemma qmax_bound ce vals K :
+    aee E ce + K < max64 ->
+    (forall v, In v vals -> v_exit_epoch v = FAR_FUTURE_EPOCH \/ v_exit_epoch v + K < max64) ->
+    qmax (aee E ce) (map v_exit_epoch vals) + K < max64.
+  Proof.
+    intros Ha Hv. unfold qmax. destruct (maxl_in (nonfar (map v_exit_epoch vals)) (aee E ce)) as [->|Hin]; [exact Ha|].
+    unfold nonfar in Hin at 2. apply filter_In in Hin. destruct Hin as [Hin Hnf].
+    apply in_map_iff in Hin. destruct Hin as [v [Hv1 Hv2]]. destruct (Hv v Hv2) as [Hfar|Hb].
+    - rewrite <- Hv1, Hfar in Hnf. discriminate.
+    - rewrite <- Hv1. exact Hb.
+  Qed.
+
+  Lemma qnorm_bounds ce vals limit e ch :
+    RegBounds c ce vals ->
+    qnorm limit (aee E ce) (map v_exit_epoch vals) = (e, ch) ->
+    aee E ce <= e /\ e + N.of_nat (length vals) + MIN_VALIDATOR_WITHDRAWABILITY_DELAY c < max64 /\ ch <= N.of_nat (length vals).
+  Proof.
+    intros HB Hq. pose proof (qnorm_fst_ge limit (aee E ce) (map v_exit_epoch vals)) as H1.
+    pose proof (qnorm_snd_le limit (aee E ce) (map v_exit_epoch vals)) as H2. rewrite Hq in H1, H2. cbn [fst snd] in *.
+    rewrite map_length in H2. split; [exact H1|]. split; [|exact H2].
+    pose proof (qmax_bound ce vals (N.of_nat (length vals) + 1 + MIN_VALIDATOR_WITHDRAWABILITY_DELAY c)) as Hm.
+    destruct HB as [_ _ Hep Hex]. unfold aee in Hm at 1.
+    assert (Hmm : qmax (aee E ce) (map v_exit_epoch vals) + (N.of_nat (length vals) + 1 + MIN_VALIDATOR_WITHDRAWABILITY_DELAY c) < max64).
+    { apply Hm; [lia|]. intros v Hv. destruct (Hex v Hv) as [H|H]; [left; exact H|right; lia]. }
+    unfold qnorm in Hq. destruct (limit <=? _); inversion Hq; subst; lia.
+  Qed.
+
+  Lemma active_count_flats vals ce :
+    countN (fun fl => fl_is_active fl ce) (map flatten vals) = active_count vals ce.
+  Proof. unfold active_count. rewrite countN_map. reflexivity. Qed.
+  Lemma exits_flats vals : map fl_exit_epoch (map flatten vals) = map v_exit_epoch vals.
+  Proof. rewrite map_map. reflexivity. Qed.
+
+  Lemma compute_rd_spec ce vals :
+    RegBounds c ce vals ->
+    let flats := map flatten vals in
+    let limit := churn_limit_of E vals ce in
+    compute_registry_process_data c flats ce =
+    Some (mkRegData (idx_where (elig_cond E) 0 flats) (sort_idx flats (idx_where (maybe_cond ce) 0 flats))
+                    (idx_where (eject_cond E ce) 0 flats)
+                    (fst (qnorm limit (aee E ce) (map v_exit_epoch vals)))
+                    (snd (qnorm limit (aee E ce) (map v_exit_epoch vals))) limit).
+  Proof.
+    intros HB flats limit.
+    destruct (qnorm limit (aee E ce) (map v_exit_epoch vals)) as [e ch] eqn:Hq.
+    pose proof (qnorm_bounds ce vals limit e ch HB Hq) as [Hb1 [Hb2 Hb3]].
+    destruct HB as [Hquot Hcount Hep Hex].
+    assert (Hlen : N.of_nat (length flats) < two64) by (unfold flats; rewrite map_length; lia).
+    assert (Hac : countN (fun fl => fl_is_active fl ce) flats = active_count vals ce) by apply active_count_flats.
+    assert (Hnf : nonfar_exits flats = nonfar (map v_exit_epoch vals)).
+    { unfold nonfar_exits, flats. rewrite exits_flats. reflexivity. }
+    assert (Hex' : forall q, exits_at q flats = qcnt q (map v_exit_epoch vals)).
+    { intros q. unfold exits_at, qcnt, flats. rewrite <- exits_flats, !countN_map. reflexivity. }
+    unfold compute_registry_process_data, compute_registry_process_data_with.
+    rewrite scan_spec by exact Hlen. cbn [sa_active sa_elig sa_maybe sa_eject].
+    pose proof (exit_scan_spec c flats ce ltac:(lia) Hlen) as Hscan. cbv zeta in Hscan.
+    rewrite Hscan, Hnf, Hex', Hac. clear Hscan.
+    unfold churn_limit_go. destruct (N.eqb_spec (CHURN_LIMIT_QUOTIENT c) 0) as [H0|_]; [contradiction|].
+    fold (churn_limit_of E vals ce). fold limit. fold (aee E ce). fold (qmax (aee E ce) (map v_exit_epoch vals)).
+    unfold qnorm in Hq. cbn [fst snd].
+    destruct (limit <=? qcnt (qmax (aee E ce) (map v_exit_epoch vals)) (map v_exit_epoch vals)); inversion Hq; subst e ch.
+    - destruct (N.eqb_spec (qmax (aee E ce) (map v_exit_epoch vals)) max64) as [Hm|_]; [lia|].
+      rewrite add64_small by (rewrite two64_val; rewrite max64_val in Hb2; lia). reflexivity.
+    - reflexivity.
+  Qed.
+End RegData.
+
+(* ================= 7. eject_batch_refines ================= *)
+Section EjectBatch.
+  Variable E : Env.
+  Notation c := (cfg E).
+
+  (* iterated initiate_validator_exit, on validator lists *)
+  Definition ive_iter_step (ce : N) (acc : option (list Validator)) (i : N) : option (list Validator) :=
+    match acc with None => None | Some vs => ive_vals E vs ce i end.
+
+  Lemma is_active_set_exit e v ce :
+    v_exit_epoch v = FAR_FUTURE_EPOCH -> ce < max64 -> ce < e ->
+    is_active_validator (set_exit E e v) ce = is_active_validator v ce.
+  Proof.
+    intros Hfar Hce He. unfold is_active_validator.
+    change (v_activation_epoch (set_exit E e v)) with (v_activation_epoch v).
+    change (v_exit_epoch (set_exit E e v)) with e. rewrite Hfar, FAR_is_max64.
+    f_equal. destruct (N.ltb_spec ce e), (N.ltb_spec ce max64); try reflexivity; lia.
+  Qed.
+
+  (* The loop invariant: zrnt's running (exitEnd, endChurn) is `qnorm` of the current validator list, i.e. exactly
+     what initiate_validator_exit would compute from scratch; the churn limit does not move. *)
+  Lemma ive_iter_struct ce limit : forall vals pre e ch,
+    churn_limit_of E (pre ++ vals) ce = limit ->
+    qnorm limit (aee E ce) (map v_exit_epoch (pre ++ vals)) = (e, ch) ->
+    aee E ce <= e -> e + N.of_nat (length vals) < max64 ->
+    fold_left (ive_iter_step ce) (idx_where (eject_cond E ce) (N.of_nat (length pre)) (map flatten vals)) (Some (pre ++ vals)) =
+    Some (pre ++ eject_struct E ce limit (map flatten vals) vals e ch).
+  Proof.
+    induction vals as [|v vals IH]; intros pre e ch Hlim Hq Hae Hb.
+    - reflexivity.
+    - cbn [map length eject_struct] in *. rewrite idx_where_cons.
+      assert (Haee_nf : aee E ce <> FAR_FUTURE_EPOCH) by (rewrite FAR_is_max64; lia).
+      assert (He_nf : e <> FAR_FUTURE_EPOCH) by (rewrite FAR_is_max64; lia).
+      replace (N.of_nat (length pre) + 1) with (N.of_nat (length (pre ++ [v]))) by (rewrite app_length; cbn [length]; lia).
+      destruct (eject_cond E ce (flatten v)) eqn:Hcond.
+      + unfold eject_cond in Hcond. apply andb_prop in Hcond. destruct Hcond as [_ Hfar].
+        cbn [flatten fl_exit_epoch] in Hfar. apply N.eqb_eq in Hfar.
+        cbn [fold_left]. unfold ive_iter_step at 2, ive_vals. rewrite nthN_app, Hfar, N.eqb_refl. cbn [negb].
+        assert (Htarget : exit_target E (pre ++ v :: vals) ce = e) by (unfold exit_target; rewrite Hlim, Hq; reflexivity).
+        rewrite Htarget, updN_app.
+        replace (pre ++ set_exit E e v :: vals) with ((pre ++ [set_exit E e v]) ++ vals) by (rewrite <- app_assoc; reflexivity).
+        replace (length (pre ++ [v])) with (length (pre ++ [set_exit E e v])) by (rewrite !app_length; reflexivity).
+        destruct (next_queue limit e ch) as [e' ch'] eqn:Hnq. cbn [fst snd].
+        pose proof (next_queue_fst limit e ch) as Hfst. rewrite Hnq in Hfst. cbn [fst] in Hfst.
+        rewrite (IH _ e' ch').
+        * rewrite <- app_assoc. reflexivity.
+        * rewrite <- app_assoc. cbn [app]. rewrite <- Hlim.
+          unfold churn_limit_of, active_count. rewrite !countN_app, !countN_cons.
+          rewrite is_active_set_exit; [reflexivity|exact Hfar|unfold aee in Hae; lia|unfold aee in Hae; lia].
+        * rewrite <- app_assoc. cbn [app]. rewrite map_app. cbn [map].
+          change (v_exit_epoch (set_exit E e v)) with e.
+          rewrite <- Hnq. apply queue_step; try assumption.
+          rewrite <- Hq. rewrite map_app. cbn [map]. rewrite Hfar. reflexivity.
+        * lia.
+        * lia.
+      + replace (pre ++ v :: vals) with ((pre ++ [v]) ++ vals) by (rewrite <- app_assoc; reflexivity).
+        rewrite (IH _ e ch).
+        * rewrite <- app_assoc. reflexivity.
+        * rewrite <- app_assoc. exact Hlim.
+        * rewrite <- app_assoc. exact Hq.
+        * exact Hae.
+        * lia.
+  Qed.
+
+  (* zrnt's batch, in closed form *)
+  Lemma eject_batch_struct ce vals :
+    RegBounds c ce vals ->
+    let limit := churn_limit_of E vals ce in
+    let q := qnorm limit (aee E ce) (map v_exit_epoch vals) in
+    forall rd, compute_registry_process_data c (map flatten vals) ce = Some rd ->
+    eject_batch c rd vals = Some (eject_struct E ce limit (map flatten vals) vals (fst q) (snd q)).
+  Proof.
+    intros HB limit q rd Hrd. rewrite (compute_rd_spec E ce vals HB) in Hrd. inversion Hrd; subst rd; clear Hrd.
+    unfold eject_batch. cbn [rd_churn_limit rd_to_eject rd_exit_queue_end rd_exit_queue_end_churn].
+    fold limit. fold q. destruct q as [e ch] eqn:Hq. cbn [fst snd].
+    pose proof (qnorm_bounds E ce vals limit e ch HB Hq) as [Hb1 [Hb2 Hb3]].
+    destruct HB as [_ Hcount _ _].
+    destruct (eject_fold_struct E ce limit (map flatten vals) vals [] e ch) as [e' [ch' H]].
+    - apply map_length.
+    - rewrite map_length. rewrite max64_val in Hb2. rewrite two64_val. lia.
+    - rewrite map_length. lia.
+    - cbn [app length N.of_nat] in H. rewrite H. reflexivity.
+  Qed.
+
+  (* eject_batch_refines: zrnt's batched ejection (one pre-computed queue end and churn, advanced by a counter)
+     equals iterating the spec's initiate_validator_exit over the same indices, each call recomputing the queue
+     from the whole registry. *)
+  Theorem eject_batch_refines (st : BeaconState) :
+    let ce := get_current_epoch E st in
+    RegBounds c ce (validators st) ->
+    forall rd, compute_registry_process_data c (flatten_validators (validators st)) ce = Some rd ->
+    exists vals',
+      eject_batch c rd (validators st) = Some vals' /\
+      fold_left (fun acc i => st <- acc ;; initiate_validator_exit E st i) (rd_to_eject rd) (Some st)
+      = Some (with_validators st vals').
+  Proof.
+    intros ce HB rd Hrd. unfold flatten_validators in Hrd.
+    pose proof (eject_batch_struct ce (validators st) HB rd Hrd) as Hbatch. cbv zeta in Hbatch.
+    eexists. split; [exact Hbatch|].
+    rewrite (compute_rd_spec E ce _ HB) in Hrd. inversion Hrd; subst rd; clear Hrd. cbn [rd_to_eject].
+    set (limit := churn_limit_of E (validators st) ce).
+    destruct (qnorm limit (aee E ce) (map v_exit_epoch (validators st))) as [e ch] eqn:Hq. cbn [fst snd].
+    pose proof (qnorm_bounds E ce _ limit e ch HB Hq) as [Hb1 [Hb2 Hb3]].
+    pose proof (ive_iter_struct ce limit (validators st) [] e ch eq_refl Hq Hb1 ltac:(lia)) as Hiter.
+    cbn [app length N.of_nat] in Hiter.
+    (* states <-> validator lists *)
+    assert (Hgen : forall l s, get_current_epoch E s = ce ->
+              fold_left (fun acc i => st <- acc ;; initiate_validator_exit E st i) l (Some s) =
+              option_map (with_validators s) (fold_left (ive_iter_step ce) l (Some (validators s)))).
+    { induction l as [|i l IHl]; intros s Hs.
+      - cbn [fold_left option_map]. rewrite with_validators_id. reflexivity.
+      - cbn [fold_left]. rewrite ive_state, Hs. unfold ive_iter_step at 2.
+        destruct (ive_vals E (validators s) ce i) as [vs|]; cbn [option_map].
+        + rewrite (IHl (with_validators s vs)) by exact Hs. reflexivity.
+        + rewrite !fold_left_none by reflexivity. reflexivity. }
+    rewrite Hgen by reflexivity. rewrite Hiter. reflexivity.
+  Qed.
+End EjectBatch.
+
+(* ================= 8. the activation queue ================= *)
+Section Sorting.
+  Variable flats : list FlatValidator.
+  Notation kf := (elig_of flats).
+  Notation less := (act_less flats).
+
+  Lemma act_less_spec a b : less a b = true <-> (kf a < kf b \/ (kf a = kf b /\ a < b)).
+  Proof.
+    unfold act_less. destruct (N.eqb_spec (kf a) (kf b)) as [He|Hne].
+    - rewrite N.ltb_lt. lia.
+    - rewrite N.ltb_lt. lia.
+  Qed.
+  Lemma act_less_false a b : less a b = false <-> (kf b < kf a \/ (kf a = kf b /\ b <= a)).
+  Proof.
+    pose proof (act_less_spec a b) as H. destruct (less a b).
+    - split; [discriminate|]. intros H1. assert (true = true) as H2 by reflexivity. apply H in H2. lia.
+    - split; [|reflexivity]. intros _.
+      destruct (N.lt_trichotomy (kf a) (kf b)) as [H1|[H1|H1]]; [|destruct (N.lt_ge_cases a b)|];
+        try (right; lia); try (left; lia); exfalso; assert (false = true) by (apply H; lia); discriminate.
+  Qed.
+
+  (* sortedness w.r.t. the non-strict order  le a b := not (less b a) *)
+  Fixpoint ssorted (l : list N) : Prop :=
+    match l with [] => True | a :: l' => (forall z, In z l' -> less z a = false) /\ ssorted l' end.
+
+  Lemma insert_idx_in x l z : In z (insert_idx flats x l) -> z = x \/ In z l.
+  Proof.
+    induction l as [|y l IH]; cbn [insert_idx].
+    - intros [H|[]]. left. symmetry. exact H.
+    - destruct (less x y).
+      + intros [H|H]; [left; symmetry; exact H|right; exact H].
+      + intros [H|H]; [right; left; exact H|]. destruct (IH H) as [H1|H1]; [left; exact H1|right; right; exact H1].
+  Qed.
+  Lemma insert_idx_sorted x l : ssorted l -> ssorted (insert_idx flats x l).
+  Proof.
+    induction l as [|y l IH]; intros Hs; cbn [insert_idx].
+    - cbn [ssorted]. split; [intros z []|exact I].
+    - destruct Hs as [Hy Hs]. destruct (less x y) eqn:Hxy.
+      + cbn [ssorted]. split; [|split; assumption].
+        intros z [Hz|Hz].
+        * subst z. apply act_less_spec in Hxy. apply act_less_false. lia.
+        * specialize (Hy z Hz). apply act_less_spec in Hxy. apply act_less_false in Hy. apply act_less_false. lia.
+      + cbn [ssorted]. split; [|apply IH; exact Hs].
+        intros z Hz. apply insert_idx_in in Hz. destruct Hz as [->|Hz]; [|apply Hy; exact Hz].
+        apply act_less_false in Hxy. apply act_less_false. lia.
+  Qed.
+  Lemma sort_idx_sorted l : ssorted (sort_idx flats l).
+  Proof. induction l as [|x l IH]; cbn [sort_idx fold_right]; [exact I|]. apply insert_idx_sorted. exact IH. Qed.
+
+  (* filtering by a predicate commutes with insertion into a sorted list *)
+  Lemma filter_insert_idx (p : N -> bool) x l :
+    ssorted l ->
+    filter p (insert_idx flats x l) = if p x then insert_idx flats x (filter p l) else filter p l.
+  Proof.
+    induction l as [|y l IH]; intros Hs.
+    - cbn [insert_idx filter]. destruct (p x); reflexivity.
+    - destruct Hs as [Hy Hs]. cbn [insert_idx]. destruct (less x y) eqn:Hxy.
+      + cbn [filter]. destruct (p x) eqn:Hpx; [|reflexivity]. destruct (p y) eqn:Hpy.
+        * cbn [insert_idx]. rewrite Hxy. reflexivity.
+        * (* x goes in front of whatever survives of l *)
+          assert (Hfront : forall l', (forall z, In z l' -> less z y = false) -> insert_idx flats x (filter p l') = x :: filter p l').
+          { intros l' Hl'. destruct (filter p l') as [|z r] eqn:Hf; [reflexivity|].
+            cbn [insert_idx]. assert (Hz : In z l').
+            { assert (In z (filter p l')) by (rewrite Hf; left; reflexivity). apply filter_In in H. apply H. }
+            specialize (Hl' z Hz). apply act_less_false in Hl'. apply act_less_spec in Hxy.
+            assert (Hxz : less x z = true) by (apply act_less_spec; lia). rewrite Hxz. reflexivity. }
+          rewrite Hfront by exact Hy. reflexivity.
+      + cbn [filter]. rewrite (IH Hs). destruct (p y) eqn:Hpy; destruct (p x) eqn:Hpx; try reflexivity.
+        cbn [insert_idx]. rewrite Hxy. reflexivity.
+  Qed.
+  Lemma filter_sort_idx (p : N -> bool) l : filter p (sort_idx flats l) = sort_idx flats (filter p l).
+  Proof.
+    induction l as [|x l IH]; [reflexivity|]. cbn [sort_idx fold_right filter].
+    rewrite filter_insert_idx by apply sort_idx_sorted. fold (sort_idx flats l). rewrite IH.
+    destruct (p x); reflexivity.
+  Qed.
+
+  (* in a sorted list, the entries with eligibility epoch <= fin form a prefix *)
+  Lemma filter_takeWhile_sorted fin l :
+    ssorted l -> filter (fun i => kf i <=? fin) l = takeWhile (fun i => kf i <=? fin) l.
+  Proof.
+    induction l as [|a l IH]; intros Hs; [reflexivity|]. destruct Hs as [Ha Hs]. cbn [filter takeWhile].
+    destruct (N.leb_spec (kf a) fin) as [Hle|Hgt]; [f_equal; apply IH; exact Hs|].
+    clear IH. induction l as [|z l IHl]; [reflexivity|]. cbn [filter].
+    pose proof (Ha z (or_introl eq_refl)) as Hz. apply act_less_false in Hz.
+    destruct (N.leb_spec (kf z) fin); [lia|]. apply IHl.
+    - intros w Hw. apply Ha. right. exact Hw.
+    - destruct Hs as [_ Hs]. exact Hs.
+  Qed.
+End Sorting.
+
+Lemma cut_firstn {A} (l : list A) limit : cut l limit = firstn (N.to_nat limit) l.
+Proof.
+  unfold cut. destruct (N.ltb_spec limit (N.of_nat (length l))) as [H|H]; [reflexivity|].
+  rewrite firstn_all2 by lia. reflexivity.
+Qed.
+
+(* activation_queue_prefix: zrnt sorts every not-yet-activated validator whose eligibility epoch is <= the current
+   epoch, cuts the list at the churn limit and stops at the first entry whose eligibility epoch exceeds the
+   finalized epoch.  The spec filters by eligibility epoch <= finalized epoch first, sorts, then cuts.
+   Both give the same list whenever finalized epoch <= current epoch. *)
+Theorem activation_queue_prefix (flats : list FlatValidator) (ce fin limit : N) :
+  fin <= ce ->
+  let fin_cond fl := (fl_activation_epoch fl =? FAR_FUTURE_EPOCH) && (fl_activation_eligibility_epoch fl <=? fin) in
+  takeWhile (fun i => elig_of flats i <=? fin) (cut (sort_idx flats (idx_where (maybe_cond ce) 0 flats)) limit)
+  = firstn (N.to_nat limit) (sort_idx flats (idx_where fin_cond 0 flats)).
+Proof.
+  intros Hfin fin_cond. rewrite cut_firstn, takeWhile_firstn. f_equal.
+  rewrite <- filter_takeWhile_sorted by apply sort_idx_sorted. rewrite filter_sort_idx. f_equal.
+  (* the index lists *)
+  unfold idx_where.
+  assert (Hgen : forall l pre, flats = pre ++ l ->
+     filter (fun i => match nthN flats i with Some fl => fl_activation_eligibility_epoch fl | None => 0 end <=? fin)
+       (map fst (filter (fun ia => maybe_cond ce (snd ia)) (indexed_from (N.of_nat (length pre)) l))) =
+     map fst (filter (fun ia => fin_cond (snd ia)) (indexed_from (N.of_nat (length pre)) l))).
+  { induction l as [|fl l IH]; intros pre Hfl; [reflexivity|].
+    cbn [indexed_from filter snd]. 
+    replace (N.of_nat (length pre) + 1) with (N.of_nat (length (pre ++ [fl]))) by (rewrite app_length; cbn [length]; lia).
+    assert (IH' := IH (pre ++ [fl])). rewrite <- app_assoc in IH'. specialize (IH' Hfl).
+    unfold maybe_cond at 1, fin_cond at 1.
+    destruct (fl_activation_epoch fl =? FAR_FUTURE_EPOCH); cbn [andb]; [|exact IH'].
+    destruct (N.leb_spec (fl_activation_eligibility_epoch fl) ce) as [Hle|Hgt].
+    - cbn [map filter fst]. rewrite Hfl at 1. rewrite nthN_app.
+      destruct (fl_activation_eligibility_epoch fl <=? fin); [cbn [map fst]; f_equal|]; exact IH'.
+    - destruct (N.leb_spec (fl_activation_eligibility_epoch fl) fin) as [Hle2|_]; [lia|]. exact IH'. }
+  exact (Hgen flats [] eq_refl).
+Qed.
+
+(* ---- the spec's queue (insert_by on keyed triples) is the same insertion sort ---- *)
+Section SpecQueue.
+  Variable flats : list FlatValidator.
+  Definition keyed (i : N) : N * N * N := ((elig_of flats i, i), i).
+
+  Lemma insert_by_keyed x l : insert_by (elig_of flats x, x) x (map keyed l) = map keyed (insert_idx flats x l).
+  Proof.
+    induction l as [|y l IH]; [reflexivity|]. cbn [map insert_by insert_idx]. unfold keyed at 1. cbn [fst snd].
+    unfold act_less.
+    assert (Hcmp : (elig_of flats x <? elig_of flats y) || ((elig_of flats x =? elig_of flats y) && (x <? y)) =
+                   (if elig_of flats x =? elig_of flats y then x <? y else elig_of flats x <? elig_of flats y)).
+    { destruct (N.eqb_spec (elig_of flats x) (elig_of flats y)) as [He|Hne]; cbn [andb].
+      - rewrite He, N.ltb_irrefl. reflexivity.
+      - rewrite orb_false_r. reflexivity. }
+    rewrite Hcmp. destruct (if elig_of flats x =? elig_of flats y then x <? y else elig_of flats x <? elig_of flats y).
+    - reflexivity.
+    - cbn [map]. f_equal. exact IH.
+  Qed.
+
+  (* snapshot entry vs current validator, as far as the activation queue can tell *)
+  Definition queue_rel (fin : N) (fl : FlatValidator) (v : Validator) : Prop :=
+    v_activation_epoch v = fl_activation_epoch fl /\
+    (v_activation_eligibility_epoch v <=? fin) = (fl_activation_eligibility_epoch fl <=? fin) /\
+    (fl_activation_eligibility_epoch fl <= fin -> v_activation_eligibility_epoch v = fl_activation_eligibility_epoch fl).
+
+  Definition fin_cond (fin : N) (fl : FlatValidator) : bool :=
+    (fl_activation_epoch fl =? FAR_FUTURE_EPOCH) && (fl_activation_eligibility_epoch fl <=? fin).
+
+  Lemma spec_queue_keyed fin : forall fls vls pre,
+    flats = pre ++ fls -> Forall2 (queue_rel fin) fls vls ->
+    fold_right (fun (iv : N * Validator) acc =>
+        let '(i, v) := iv in
+        if (v_activation_eligibility_epoch v <=? fin) && (v_activation_epoch v =? FAR_FUTURE_EPOCH)
+        then insert_by (v_activation_eligibility_epoch v, i) i acc else acc)
+      [] (indexed_from (N.of_nat (length pre)) vls)
+    = map keyed (sort_idx flats (idx_where (fin_cond fin) (N.of_nat (length pre)) fls)).
+  Proof.
+    intros fls vls pre Hfl HF. revert pre Hfl. induction HF as [|fl v fls vls Hrel HF IH]; intros pre Hfl.
+    - reflexivity.
+    - cbn [indexed_from fold_right]. rewrite idx_where_cons.
+      replace (N.of_nat (length pre) + 1) with (N.of_nat (length (pre ++ [fl]))) by (rewrite app_length; cbn [length]; lia).
+      assert (IH' := IH (pre ++ [fl])). rewrite <- app_assoc in IH'. specialize (IH' Hfl). rewrite IH'. clear IH IH'.
+      destruct Hrel as [Hact [Hle Heq]].
+      assert (Hc : (v_activation_eligibility_epoch v <=? fin) && (v_activation_epoch v =? FAR_FUTURE_EPOCH) = fin_cond fin fl).
+      { unfold fin_cond. rewrite Hact, Hle. apply andb_comm. }
+      rewrite Hc. destruct (fin_cond fin fl) eqn:Hfc; [|reflexivity].
+      unfold fin_cond in Hfc. apply andb_prop in Hfc. destruct Hfc as [_ Hfin]. apply N.leb_le in Hfin.
+      cbn [sort_idx fold_right]. rewrite <- insert_by_keyed. f_equal. rewrite (Heq Hfin).
+      unfold elig_of. rewrite Hfl at 1. rewrite nthN_app. reflexivity.
+  Qed.
+End SpecQueue.
+
+Lemma map_snd_keyed flats l : map snd (map (keyed flats) l) = l.
+Proof. rewrite map_map. cbn [keyed snd]. apply map_id. Qed.
+
+(* ---- the activation loop with the early break ---- *)
+Section Activate.
+  Variable flats : list FlatValidator.
+  Lemma activate_loop_takeWhile fin ae : forall l vals,
+    length vals = length flats ->
+    (forall i, In i l -> i < N.of_nat (length flats)) ->
+    activate_loop flats fin ae l vals =
+    Some (fold_left (fun vs i => updN vs i (set_act ae)) (takeWhile (fun i => elig_of flats i <=? fin) l) vals).
+  Proof.
+    induction l as [|i l IH]; intros vals Hlen Hin; [reflexivity|].
+    cbn [activate_loop takeWhile]. unfold elig_of.
+    assert (Hi : i < N.of_nat (length flats)) by (apply Hin; left; reflexivity).
+    unfold nthN. destruct (nth_error flats (N.to_nat i)) as [fl|] eqn:Hfl.
+    2:{ apply nth_error_None in Hfl. lia. }
+    destruct (N.ltb_spec fin (fl_activation_eligibility_epoch fl)) as [Hlt|Hge].
+    - destruct (N.leb_spec (fl_activation_eligibility_epoch fl) fin); [lia|]. reflexivity.
+    - destruct (N.leb_spec (fl_activation_eligibility_epoch fl) fin); [|lia].
+      destruct (nth_error vals (N.to_nat i)) as [v|] eqn:Hv.
+      2:{ apply nth_error_None in Hv. lia. }
+      cbn [fold_left]. apply IH.
+      + rewrite updN_length. exact Hlen.
+      + intros j Hj. apply Hin. right. exact Hj.
+  Qed.
+End Activate.
+
+(* ================= 9. assembling registry_refines ================= *)
+Lemma In_firstn {A} (x : A) : forall n l, In x (firstn n l) -> In x l.
+Proof.
+  induction n as [|n IH]; intros l H; [destruct H|].
+  destruct l as [|y l]; [destruct H|]. cbn [firstn] in H. destruct H as [H|H].
+  - left. exact H.
+  - right. apply IH. exact H.
+Qed.
+Lemma sort_idx_in flats x l : In x (sort_idx flats l) -> In x l.
+Proof.
+  induction l as [|y l IH]; cbn [sort_idx fold_right]; [intros []|].
+  intros H. apply insert_idx_in in H. destruct H as [->|H]; [left; reflexivity|right; apply IH; exact H].
+Qed.
+
+Section Assemble.
+  Variable E : Env.
+  Variable f : fork.
+  Notation c := (cfg E).
+
+  Lemma eject_struct_length ce limit : forall flats vals e ch,
+    length (eject_struct E ce limit flats vals e ch) = length vals.
+  Proof.
+    induction flats as [|fl flats IH]; intros [|v vals] e ch; cbn [eject_struct length]; try reflexivity.
+    destruct (eject_cond E ce fl); cbn [length]; rewrite IH; reflexivity.
+  Qed.
+  Lemma elig_struct_length ce : forall flats vals, length (elig_struct E ce flats vals) = length vals.
+  Proof.
+    induction flats as [|fl flats IH]; intros [|v vals]; cbn [elig_struct length]; try reflexivity.
+    rewrite IH. reflexivity.
+  Qed.
+
+  (* what the first part leaves of each validator, as seen from the snapshot *)
+  Lemma struct_rel ce fin limit :
+    fin <= ce -> ce < max64 ->
+    forall vals e ch, ce < e ->
+    Forall2 (fun fl v => queue_rel fin fl v /\ is_active_validator v ce = fl_is_active fl ce)
+            (map flatten vals)
+            (elig_struct E ce (map flatten vals) (eject_struct E ce limit (map flatten vals) vals e ch)).
+  Proof.
+    intros Hfin Hce. induction vals as [|v vals IH]; intros e ch He; cbn [map eject_struct elig_struct]; [constructor|].
+    assert (Hhead : forall x, (x = v \/ (x = set_exit E e v /\ v_exit_epoch v = FAR_FUTURE_EPOCH)) ->
+              queue_rel fin (flatten v) (if elig_cond E (flatten v) then set_elig (ce + 1) x else x) /\
+              is_active_validator (if elig_cond E (flatten v) then set_elig (ce + 1) x else x) ce = fl_is_active (flatten v) ce).
+    { intros x Hx.
+      assert (Hax : is_active_validator x ce = is_active_validator v ce).
+      { destruct Hx as [->|[-> Hfar]]; [reflexivity|]. apply is_active_set_exit; assumption. }
+      assert (Hx_act : v_activation_epoch x = v_activation_epoch v) by (destruct Hx as [->|[-> _]]; reflexivity).
+      assert (Hx_el : v_activation_eligibility_epoch x = v_activation_eligibility_epoch v) by (destruct Hx as [->|[-> _]]; reflexivity).
+      unfold queue_rel. cbn [flatten fl_activation_epoch fl_activation_eligibility_epoch].
+      destruct (elig_cond E (flatten v)) eqn:Hec.
+      - unfold elig_cond in Hec. apply andb_prop in Hec. destruct Hec as [Hec _]. cbn [flatten fl_activation_eligibility_epoch] in Hec.
+        apply N.eqb_eq in Hec.
+        change (v_activation_epoch (set_elig (ce + 1) x)) with (v_activation_epoch x).
+        change (v_activation_eligibility_epoch (set_elig (ce + 1) x)) with (ce + 1).
+        change (is_active_validator (set_elig (ce + 1) x) ce) with (is_active_validator x ce).
+        rewrite Hec, FAR_is_max64. repeat split; try assumption.
+        + destruct (N.leb_spec (ce + 1) fin), (N.leb_spec max64 fin); try reflexivity; lia.
+        + lia.
+      - rewrite Hx_el. repeat split; assumption. }
+    destruct (eject_cond E ce (flatten v)) eqn:Hej.
+    - constructor.
+      + apply Hhead. right. split; [reflexivity|].
+        unfold eject_cond in Hej. apply andb_prop in Hej. destruct Hej as [_ Hej]. apply N.eqb_eq in Hej. exact Hej.
+      + apply IH. pose proof (next_queue_fst limit e ch). lia.
+    - constructor; [apply Hhead; left; reflexivity|apply IH; exact He].
+  Qed.
+
+  Definition spec_queue (st : BeaconState) : list (N * N * N) :=
+    fold_right (fun (iv : N * Validator) acc =>
+        let '(i, v) := iv in
+        if is_eligible_for_activation st v then insert_by (v_activation_eligibility_epoch v, i) i acc else acc)
+      [] (combine (indices (validators st)) (validators st)).
+  Definition spec_act_limit (st : BeaconState) : N :=
+    match f with Deneb => get_validator_activation_churn_limit E st | _ => get_validator_churn_limit E st end.
+  Definition spec_activate (ce : N) (st : BeaconState) : BeaconState :=
+    fold_left (fun st i =>
+        st <| validators := updN (validators st) i (fun v => v <| v_activation_epoch := compute_activation_exit_epoch E ce |>) |>)
+      (firstn (N.to_nat (spec_act_limit st)) (map snd (spec_queue st))) st.
+
+  Lemma spec_registry_unfold st :
+    Epoch.process_registry_updates E f st =
+    match fold_left (spec_reg_step E (get_current_epoch E st)) (indices (validators st)) (Some st) with
+    | None => None
+    | Some st1 => Some (spec_activate (get_current_epoch E st) st1)
+    end.
+  Proof. reflexivity. Qed.
+
+  Lemma spec_activate_vals ae : forall l st,
+    fold_left (fun st i => st <| validators := updN (validators st) i (fun v => v <| v_activation_epoch := ae |>) |>) l st =
+    with_validators st (fold_left (fun vs i => updN vs i (set_act ae)) l (validators st)).
+  Proof.
+    induction l as [|i l IH]; intros st; cbn [fold_left]; [rewrite with_validators_id; reflexivity|].
+    rewrite IH. reflexivity.
+  Qed.
+
+  Theorem registry_refines (st : BeaconState) :
+    let ce := get_current_epoch E st in
+    RegBounds c ce (validators st) ->
+    cp_epoch (finalized_checkpoint st) <= ce ->
+    exists st',
+      Registry.process_registry_updates c f ce (flatten_validators (validators st)) st = Some st' /\
+      Epoch.process_registry_updates E f st = Some st'.
+  Proof.
+    intros ce HB Hfin. set (vals0 := validators st). set (flats := map flatten vals0).
+    set (fin := cp_epoch (finalized_checkpoint st)) in *.
+    set (limit := churn_limit_of E vals0 ce).
+    destruct (qnorm limit (aee E ce) (map v_exit_epoch vals0)) as [e ch] eqn:Hq.
+    pose proof (qnorm_bounds E ce vals0 limit e ch HB Hq) as [Hb1 [Hb2 Hb3]].
+    pose proof HB as [Hquot Hcount Hep Hex].
+    assert (Hce : ce < max64) by lia.
+    assert (Hcee : ce < e) by (unfold aee in Hb1; lia).
+    set (vals1 := elig_struct E ce flats (eject_struct E ce limit flats vals0 e ch)).
+    assert (Hlen1 : length vals1 = length flats).
+    { unfold vals1. rewrite elig_struct_length, eject_struct_length. unfold flats. rewrite map_length. reflexivity. }
+    pose proof (struct_rel ce fin limit Hfin Hce vals0 e ch Hcee) as Hrel. fold flats in Hrel. fold vals1 in Hrel.
+    (* the churn limit is the same before and after the first part *)
+    assert (Hlimit1 : churn_limit_of E vals1 ce = limit).
+    { unfold limit, churn_limit_of. f_equal. f_equal. rewrite <- (active_count_flats vals0). fold flats. unfold active_count.
+      clear -Hrel. induction Hrel as [|fl v fls vls [_ Ha] _ IH]; [reflexivity|].
+      rewrite !countN_cons, Ha, IH. reflexivity. }
+    set (ae := ce + 1 + MAX_SEED_LOOKAHEAD c).
+    set (alimit := activation_churn_limit c f limit).
+    set (act := firstn (N.to_nat alimit) (sort_idx flats (idx_where (fin_cond fin) 0 flats))).
+    exists (with_validators st (fold_left (fun vs i => updN vs i (set_act ae)) act vals1)). split.
+    - (* zrnt *)
+      unfold Registry.process_registry_updates, process_registry_updates_with, flatten_validators. fold vals0 flats.
+      fold (compute_registry_process_data c flats ce). unfold flats at 1. rewrite (compute_rd_spec E ce vals0 HB).
+      fold flats limit. rewrite Hq. cbn [fst snd]. unfold apply_registry_updates.
+      pose proof (eject_batch_struct E ce vals0 HB _ (compute_rd_spec E ce vals0 HB)) as Hbatch.
+      cbv zeta in Hbatch. fold flats limit in Hbatch. rewrite Hq in Hbatch. cbn [fst snd] in Hbatch. rewrite Hbatch.
+      unfold set_eligibility. cbn [rd_to_set_activation_eligibility rd_to_maybe_activate rd_churn_limit].
+      pose proof (elig_fold_struct E ce (add64 ce 1) flats (eject_struct E ce limit flats vals0 e ch) []) as Hel.
+      cbn [app length N.of_nat] in Hel. rewrite Hel; clear Hel.
+      2:{ rewrite eject_struct_length. unfold flats. apply map_length. }
+      2:{ apply add64_small. rewrite two64_val. rewrite max64_val in Hce. lia. }
+      fold vals1. fold alimit.
+      rewrite activate_loop_takeWhile.
+      + rewrite activation_queue_prefix by exact Hfin. fold act.
+        unfold activation_exit_epoch64.
+        rewrite (add64_small ce 1) by (rewrite two64_val; rewrite max64_val in Hce; lia).
+        rewrite add64_small by (rewrite two64_val; rewrite max64_val in Hep; lia). reflexivity.
+      + exact Hlen1.
+      + intros i Hi. rewrite cut_firstn in Hi. apply In_firstn in Hi. apply sort_idx_in in Hi.
+        apply idx_where_bounds in Hi. lia.
+    - (* the spec *)
+      rewrite spec_registry_unfold. fold ce.
+      rewrite (reg_loop_state E ce _ st eq_refl). fold vals0.
+      pose proof (spec_loop_struct E ce limit vals0 [] e ch eq_refl Hq Hb1 ltac:(lia)) as Hloop.
+      cbn [app length N.of_nat] in Hloop. unfold indices. fold flats in Hloop. rewrite Hloop. cbn [option_map]. fold vals1.
+      unfold spec_activate. rewrite spec_activate_vals.
+      change (validators (with_validators st vals1)) with vals1.
+      change (with_validators (with_validators st vals1) ?x) with (with_validators st x).
+      f_equal. f_equal. unfold compute_activation_exit_epoch. fold ae.
+      f_equal. unfold act. f_equal.
+      + (* the limits *)
+        f_equal. unfold spec_act_limit, alimit, activation_churn_limit, get_validator_activation_churn_limit.
+        rewrite (churn_limit_eq E (with_validators st vals1)).
+        change (validators (with_validators st vals1)) with vals1.
+        change (get_current_epoch E (with_validators st vals1)) with ce. rewrite Hlimit1.
+        destruct f; reflexivity.
+      + (* the queues *)
+        unfold spec_queue. change (validators (with_validators st vals1)) with vals1.
+        rewrite combine_indices_indexed. unfold indexed, is_eligible_for_activation.
+        change (cp_epoch (finalized_checkpoint (with_validators st vals1))) with fin.
+        pose proof (spec_queue_keyed flats fin flats vals1 [] eq_refl) as Hsq. cbn [length N.of_nat] in Hsq.
+        rewrite Hsq; [apply map_snd_keyed|].
+        clear -Hrel. induction Hrel as [|fl v fls vls [Hr _] _ IH]; constructor; assumption.
+  Qed.
+End Assemble.
